@@ -66,7 +66,10 @@ class Contract:
         # labels of non-suspending loops at whose head every class invariant in scope holds (checked, then assumed)
         self.loop_consistent = _lst(kw.pop("loop_consistent", []))
         # ensures are proved in order, each may use the earlier ones as lemmas (assert-then-assume)
-        self.chain_ensures = kw.pop("chain_ensures", False)   # protocol facts that hold whenever GeneratorExit arrives
+        self.chain_ensures = kw.pop("chain_ensures", False)
+        # element type of the list built by an effectful comprehension ("comp#n" -> type), default ANY
+        self.comp_types = kw.pop("comp_types", {})
+        self.vacuous_ok = kw.pop("vacuous_ok", False)     # the function never completes normally by design   # protocol facts that hold whenever GeneratorExit arrives
         self.assume_all = _lst(kw.pop("assume_all", []))       # invariants ('Class.name') assumed for *all* objects at entry
         self.self_cls = kw.pop("self_cls", None)
         self.step = kw.pop("step", None)             # async generator: per-step contract
@@ -193,11 +196,18 @@ def monotone(cls, fields, why=""):
         REG.owner_stable.append((cls, f, "monotone", None, why))
 
 
-def rely(cls, fields, when, why="", ensures=None):
+SUSPENSION_ONLY = set()
+
+
+def rely(cls, fields, when, why="", ensures=None, suspension_only=False):
     """across a suspension of the running activity `me`: for every object of cls satisfying `when` (over self, me)
     before the suspension, the listed fields are unchanged afterwards and the two-state clause `ensures`
     (old() = before the suspension) holds.  Must be backed by `guarantee` clauses."""
     REG.relies.append((cls, list(fields), when, why, ensures))
+    if suspension_only:
+        # about what OTHER activities do while this one is suspended: not applicable to synchronous foreign code run by a
+        # callee of this activity (havoc_all), which may well be the owner's own code
+        SUSPENSION_ONLY.add((cls, tuple(fields), when))
 
 
 def kernel_fact(name, expr, why="", on_resume=None):
